@@ -248,5 +248,9 @@ def replay(pid, path):
     vh = os.path.join(ROOT, ".work", "bin", "vh")
     out = os.path.join(ROOT, ".work", pid, "replay-run")
     os.makedirs(out, exist_ok=True)
-    rc = subprocess.call([vh, eng, "-replay", path, "-out", out])
+    cmd = [vh, eng, "-replay", path, "-out", out]
+    extra = rp.get("extra") or next((e.get("extra") for e in SPECS[pid]["engines"] if e["name"] == eng and e.get("extra")), None)
+    if extra:
+        cmd += ["-x", extra]
+    rc = subprocess.call(cmd)
     return rc
